@@ -61,7 +61,7 @@ TEXT = {
     "C14": {
         "level": "Theorems over the registry/table Model: create/exists, delete => NotFound, frame for other tables; ModifyColumnFamilies all-or-nothing; a family drop purges exactly that family's "
                  "cells (scrub lemma); DropRowRange(prefix) — modelled as the code's scan-from-prefix-until-first-non-prefix — deletes exactly the rows with that prefix (prefix-block lemma on the "
-                 "bytewise order, for all sorted stores); the consistency requests (GenerateConsistencyToken, CheckConsistency) answer NotFound on a missing or deleted table whatever token is shown, and accept exactly the table's own token otherwise. Tied to the code by admin/data programs (incl. tokens kept across a delete) with full dumps on three engines.",
+                 "bytewise order, for all sorted stores); the consistency requests (GenerateConsistencyToken, CheckConsistency) answer NotFound on a missing or deleted table whatever token is shown, and accept exactly the table's own token otherwise. Tied to the code by admin/data programs (incl. tokens kept across a delete) with full dumps on three engines, and by C08's crash programs on the disk engine (a deleted table, emptied rows, a dropped family stay so for the next process).",
         "note": COMMON_NOTE,
         "technique": "Lean 4 proof (order lemma + induction over rows); differential correspondence; structural fact on the RPC method set",
     },
